@@ -20,6 +20,8 @@ import Golib.Proof.C03Fresh
 import Golib.Proof.C03Multi
 import Golib.Gen.FactsC03
 import Golib.Proof.C03Trans
+import Golib.Proof.C03TransBits
+import Golib.Proof.C03Words
 
 namespace Golib.C03
 
@@ -574,5 +576,79 @@ example : Sorted (absVals [1#16, 5#16, 9#16]) ∧
     Golib.Gen.Trans.C03.arrayContainer_Contains { values := [1#16, 5#16, 9#16] } 5#16 = .ok true ∧
     Golib.Gen.Trans.C03.arrayContainer_Contains { values := [1#16, 5#16, 9#16] } 6#16 = .ok false := by
   refine ⟨by unfold Sorted; decide, ?_, ?_, ?_, ?_⟩ <;> decide +kernel
+
+/-! ### Wave 9: more of `roaring_bitmap.go` / `bits.go` regenerated from source
+
+`(*arrayContainer).Len`/`Type` and the four `Bitmap` methods every operation of the bitmap container
+bottoms out in (`bitmapContainer.Contains` = `b.Bitmap.Contains(uint(x))`; `Add`/`Remove` =
+`(*Bits).Add/Remove` = `Bitmap.Add/Remove` plus the cached `length`; the conversion loop of
+`(*arrayContainer).Add` = `Bitmap.add`).  The model side is C03's OWN word-level model
+(`Model/C03Roaring.lean`), the definitions `Container.add/remove/contains` and `arrAdd` are made of;
+C16 ties the same source functions to ITS model.  Outside the subset (reported, not tied):
+`(*arrayContainer).Add` (returns the interface `container`; `unsafe.Pointer` cast of the backing
+array), the `bitmapContainer`/`Bits` wrappers (embedded struct, `(*Bits)(b)` pointer conversion,
+interface result), `setZero`, the iterators (pointer fields), `RoaringBitmap` (skip list of
+interfaces). -/
+
+/-- The regenerated `(*arrayContainer).Len` is the number of stored values (`Container.len (.arr …)`). -/
+theorem c03_trans_arrayContainer_Len (vals : List (BitVec 16)) :
+    Golib.Gen.Trans.C03.arrayContainer_Len { values := vals } = .ok (Container.len (.arr (absVals vals))) := by
+  simp [Golib.Gen.Trans.C03.arrayContainer_Len, Container.len, absVals]
+
+/-- The regenerated `(*arrayContainer).Type` is the tag 1 that `Range` dispatches on. -/
+theorem c03_trans_arrayContainer_Type (vals : List (BitVec 16)) :
+    Golib.Gen.Trans.C03.arrayContainer_Type { values := vals } = .ok 1 := rfl
+
+/-- The regenerated `Bitmap.Contains` IS `bitmapContains` (never panics: the index test short-circuits). -/
+theorem c03_trans_Bitmap_Contains (b : GBitmap) (num : BitVec 64) :
+    Golib.Gen.Trans.C03.Bitmap_Contains b num = .ok (bitmapContains b.set.toArray num.toNat) :=
+  trans_bitmap_contains b num
+
+/-- The regenerated `Bitmap.Remove` IS `bitmapRemove` (result first, then the receiver's words). -/
+theorem c03_trans_Bitmap_Remove (b : GBitmap) (num : BitVec 64) :
+    Golib.Gen.Trans.C03.Bitmap_Remove b num = .ok (bmOut (bitmapRemove b.set.toArray num.toNat)) :=
+  trans_bitmap_remove b num
+
+/-- The regenerated `Bitmap.Add` IS `bitmapAdd` (grows by whole words when the index is beyond the end). -/
+theorem c03_trans_Bitmap_Add (b : GBitmap) (num : BitVec 64) :
+    Golib.Gen.Trans.C03.Bitmap_Add b num = optRes bmOut (bitmapAdd b.set.toArray num.toNat) :=
+  trans_bitmap_add b num
+
+/-- The regenerated raw `Bitmap.add` IS `bitmapAddRaw`: it panics exactly when the word index is
+out of range (which the 1024-word array of the conversion excludes). -/
+theorem c03_trans_Bitmap_add (b : GBitmap) (num : BitVec 64) :
+    Golib.Gen.Trans.C03.Bitmap_add b num
+      = optRes (fun w => (⟨w.toList⟩ : GBitmap)) (bitmapAddRaw b.set.toArray num.toNat) :=
+  trans_bitmap_addRaw b num
+
+/-- The set clause directly on the generated definitions: `Remove(num)` answers whether `num` was a
+member, keeps the number of words, and afterwards `Contains(n)` is the old membership of `n`
+except for `num` itself, which is gone. -/
+theorem c03_trans_bitmap_remove_contains (b : GBitmap) (num : BitVec 64) :
+    ∃ b' : GBitmap,
+      Golib.Gen.Trans.C03.Bitmap_Remove b num = .ok (wordsBit b.set.toArray num.toNat, b') ∧
+      b'.set.length = b.set.length ∧
+      ∀ n : BitVec 64, Golib.Gen.Trans.C03.Bitmap_Contains b' n
+        = .ok (!decide (n = num) && wordsBit b.set.toArray n.toNat) := by
+  obtain ⟨w', h1, h2, h3⟩ := bitmapRemove_spec b.set.toArray num.toNat
+  refine ⟨⟨w'.toList⟩, by rw [c03_trans_Bitmap_Remove, h1]; rfl, by simpa using h2, fun n => ?_⟩
+  rw [c03_trans_Bitmap_Contains, bitmapContains_eq]
+  simp only [Array.toArray_toList, h3]
+  have hd : decide (n.toNat = num.toNat) = decide (n = num) :=
+    decide_eq_decide.2 ⟨fun h => BitVec.eq_of_toNat_eq h, fun h => by rw [h]⟩
+  rw [hd]
+
+/-- Non-vacuity: the generated methods on two words: bit 65 is bit 1 of word 1; `Add(130)` grows by
+one word; the raw `add` beyond the end panics. -/
+example :
+    Golib.Gen.Trans.C03.Bitmap_Contains ⟨[0#64, 2#64]⟩ 65#64 = .ok true ∧
+    Golib.Gen.Trans.C03.Bitmap_Contains ⟨[0#64, 2#64]⟩ 200#64 = .ok false ∧
+    Golib.Gen.Trans.C03.Bitmap_Remove ⟨[0#64, 2#64]⟩ 65#64 = .ok (true, ⟨[0#64, 0#64]⟩) ∧
+    Golib.Gen.Trans.C03.Bitmap_Add ⟨[0#64, 2#64]⟩ 130#64 = .ok (true, ⟨[0#64, 2#64, 4#64]⟩) ∧
+    Golib.Gen.Trans.C03.Bitmap_Add ⟨[0#64, 2#64]⟩ 65#64 = .ok (false, ⟨[0#64, 2#64]⟩) ∧
+    Golib.Gen.Trans.C03.Bitmap_add ⟨[0#64, 2#64]⟩ 3#64 = .ok ⟨[8#64, 2#64]⟩ ∧
+    Golib.Gen.Trans.C03.Bitmap_add ⟨[0#64, 2#64]⟩ 130#64 = .panic ∧
+    Golib.Gen.Trans.C03.arrayContainer_Len { values := [1#16, 5#16] } = .ok 2 := by
+  refine ⟨?_, ?_, ?_, ?_, ?_, ?_, ?_, ?_⟩ <;> decide +kernel
 
 end Golib.C03
